@@ -27,13 +27,15 @@ if only:
 def one(sid):
     prop = json.load(open(os.path.join(ROOT, "seeded", sid, "meta.json")))["property"]
     t0 = time.time()
-    r = subprocess.run([os.path.join(ROOT, "tools", "mutate.py"), prop, "--patch", os.path.join(ROOT, "seeded", sid, "patch.diff")],
+    r = subprocess.run([os.path.join(ROOT, "tools", "mutate.py"), prop, "--patch", os.path.join(ROOT, "seeded", sid, "patch.diff"), "--confirm-replay"],
                        stdout=subprocess.PIPE, stderr=subprocess.STDOUT, text=True)
     lines = r.stdout.split("\n")
     verdict = next((l.split()[0] for l in lines if l.startswith(("DETECTED", "MISSED", "ERROR"))), "ERROR")
     detail = next((l.strip() for l in lines if "violation detail" in l), "")
     detail = re.sub(r"\d{6,}", "N", detail)[:300]
-    res = {"id": sid, "property": prop, "verdict": verdict, "seconds": round(time.time() - t0), "first_violation": detail}
+    rep = [l.split()[0] for l in lines if l.strip().startswith("REPLAY-")]
+    res = {"id": sid, "property": prop, "verdict": verdict, "seconds": round(time.time() - t0), "first_violation": detail,
+           "replay": ("reproduces" if rep and all(x == "REPLAY-OK" for x in rep) else ("MISMATCH" if rep else "-"))}
     print(json.dumps(res), flush=True)
     return res
 
@@ -49,8 +51,8 @@ allr = [old[k] for k in sorted(old)]
 head = subprocess.run(["git", "-C", "/repo", "rev-parse", "--short", "HEAD"], stdout=subprocess.PIPE, text=True).stdout.strip()
 json.dump({"repo_head": head, "tier": "quick", "results": allr}, open(out, "w"), indent=1)
 with open(out.replace(".json", ".md"), "w") as f:
-    f.write("| seeded change | check | quick tier | s | first violation reported |\n|---|---|---|---|---|\n")
+    f.write("| seeded change | check | quick tier | s | replay file | first violation reported |\n|---|---|---|---|---|---|\n")
     for r in allr:
-        f.write("| %s | %s | %s | %d | %s |\n" % (r["id"], r["property"], r["verdict"], r["seconds"], r["first_violation"].replace("|", "/")))
+        f.write("| %s | %s | %s | %d | %s | %s |\n" % (r["id"], r["property"], r["verdict"], r["seconds"], r.get("replay", "-"), r["first_violation"].replace("|", "/")))
 print("%d seeded changes: %d detected, %d missed, %d error" % (len(allr), sum(r["verdict"] == "DETECTED" for r in allr),
                                                               sum(r["verdict"] == "MISSED" for r in allr), sum(r["verdict"] == "ERROR" for r in allr)))
